@@ -18,9 +18,23 @@ def index_dims_from(decoded, comp):
     return {i: dv[c] for i, c in cls.items()}
 
 
-def judge_output(comp, decoded, output: dict, families) -> list[str]:
+def index_dims_for(assignment, decoded, comp):
+    """index name -> size, read off the concrete tensors (works for a caller-supplied spec)."""
+    out = {}
+    for i, d in zip(assignment.target.indexes, decoded["output_dimensions"]):
+        out[i] = d
+    for name, occs in assignment.expression.variables().items():
+        dims = decoded["inputs"][name]["dimensions"]
+        for occ in occs:
+            for i, d in zip(occ.indexes, dims):
+                out.setdefault(i, d)
+    return out
+
+
+def judge_output(comp, decoded, output: dict, families, spec_assignment=None) -> list[str]:
     """Problems of a concrete output w.r.t. the requested assertion families."""
     probs = []
+    asg = spec_assignment or comp.assignment
     fmt = comp.formats[comp.target]
     dims = list(decoded["output_dimensions"])
     indices = output["indices"]
@@ -34,7 +48,7 @@ def judge_output(comp, decoded, output: dict, families) -> list[str]:
     if len(indices) != fmt.order:
         return ["structure: output has the wrong number of levels"]
     inputs = replay.parse_inputs(decoded)
-    idims = index_dims_from(decoded, comp)
+    idims = index_dims_for(asg, decoded, comp)
     wf = replay.wf_problems(fmt, dims, indices, output.get("vals_length", len(vals)))
     if "canon" in families:
         probs += ["canon: " + p for p in wf]
@@ -45,20 +59,20 @@ def judge_output(comp, decoded, output: dict, families) -> list[str]:
         got = {}
         for coord, p in replay.raw_entries(fmt, dims, indices, vals):
             got[coord] = got.get(coord, Fraction(0)) + Fraction(vals[p])
-        want = replay.spec_concrete(comp.assignment, inputs, idims)
+        want = replay.spec_concrete(asg, inputs, idims)
         for c, w in want.items():
             g = got.get(c, Fraction(0))
             if g != w:
                 probs.append(f"value: at {c} got {float(g)} expected {float(w)}")
                 break
     if "support" in families:
-        tix = comp.assignment.target.indexes
+        tix = asg.target.indexes
         for l, mode in enumerate(fmt.modes):
             if mode != Mode.compressed:
                 continue
             for prefix in _prefixes(fmt, dims, indices, l):
                 partial = {tix[fmt.ordering[k]]: prefix[k] for k in range(l + 1)}
-                if not replay.support_concrete(comp.assignment, inputs, idims, partial):
+                if not replay.support_concrete(asg, inputs, idims, partial):
                     probs.append(f"support: level {l} stores {partial} without support")
                     break
     return probs
